@@ -448,6 +448,43 @@ def gen_cli(repo, out):
     if handlers != ["requests.exceptions.RequestException"]:
         fail("update check exception handler", f"found {handlers}")
     out.text("update_caught_exception", handlers[0], "cli/update.py: except clause")
+    # ---- C20 additions: comparison operator of needs_update, the notice text, shape of the transcribed statements
+    nu = find_func(cls.body, "needs_update", "Updater.needs_update")
+    if len(nu.body) != 2 or ast.unparse(nu.body[0]) != "if not self.latest_version:\n    return False" or not isinstance(nu.body[1], ast.Return):
+        fail("needs_update", "expected `if not self.latest_version: return False` followed by one return")
+    e = nu.body[1].value
+    if not (isinstance(e, ast.BoolOp) and isinstance(e.op, ast.And) and len(e.values) == 3 and isinstance(e.values[0], ast.Compare)
+            and len(e.values[0].ops) == 1 and isinstance(e.values[0].ops[0], (ast.Gt, ast.GtE))
+            and ast.unparse(e.values[0].left) == "self.latest_version"
+            and ast.unparse(e.values[0].comparators[0]) == "version.parse(ascmhl_tool_version)"
+            and [ast.unparse(v) for v in e.values[1:]] == ["not self.latest_version.is_devrelease", "not self.latest_version.is_prerelease"]):
+        fail("needs_update", f"unexpected return expression {ast.unparse(e)}")
+    strict = isinstance(e.values[0].ops[0], ast.Gt)
+    out.raw(f"Definition update_compare_strict : bool := {'true' if strict else 'false'}. " + comment("cli/update.py needs_update: latest " + (">" if strict else ">=") + " current"))
+    tries = [n for n in ast.walk(g) if isinstance(n, ast.Try)]
+    want_try = ["r = requests.get('https://api.github.com/repos/ascmitc/mhl/releases/latest')", "r.raise_for_status()",
+                "self.latest_version = version.parse(r.json().get('tag_name'))"]
+    if len(tries) != 1 or [ast.unparse(x) for x in tries[0].body] != want_try or [ast.unparse(x) for x in tries[0].handlers[0].body] != ["self.finished = True"]:
+        soft("Updater._get_latest_version", "statements of the try block / handler differ from the transcribed ones")
+    if stmts_of(find_func(cls.body, "run", "Updater.run")) != ["self._get_latest_version()", "self.finished = True"]:
+        soft("Updater.run", "statements differ from the transcribed ones")
+    for rel, key in [("ascmhl/cli/ascmhl.py", "update_notice"), ("ascmhl/cli/ascmhl_debug.py", "update_notice_debug")]:
+        mod = parse(repo, rel)
+        cb = find_func(mod.body, "update", f"{rel}: result callback update()")
+        if [ast.unparse(d) for d in cb.decorator_list] not in (["mhltool_cli.result_callback()"], ["mhldebugtool_cli.result_callback()"]):
+            fail(f"{rel} result callback", "expected @<group>.result_callback()")
+        sechos = [n for n in ast.walk(cb) if isinstance(n, ast.Call) and ast.unparse(n.func) == "click.secho"]
+        if len(sechos) != 1 or len(sechos[0].args) != 1:
+            fail(f"{rel} notice", "expected exactly one click.secho(<text>, ...)")
+        a = sechos[0].args[0]
+        if isinstance(a, ast.JoinedStr) and all(isinstance(v, ast.Constant) for v in a.values):
+            txt = "".join(v.value for v in a.values)
+        else:
+            txt = const_str(a, f"{rel} notice text")
+        out.text(key, txt, f"{rel}: click.secho in the result callback")
+        body = stmts_of(cb)
+        if len(body) != 2 or not body[0].startswith("updater.join(") or not body[1].startswith("if updater.needs_update:\n    click.secho("):
+            soft(f"{rel} result callback", "statements differ from the transcribed ones")
 
 
 # ---------------------------------------------------------------------------------------------------- XSD
